@@ -20,7 +20,12 @@ Q_FIND_CHILD = N + "find_child"
 _CNT = z3.Function("count_named", *_CS, smt.FieldArr, I, S, I, I)
 
 
+def _sx(x):
+    return z3.StringVal(x) if isinstance(x, str) else x
+
+
 def CNT(s, n, x, k):
+    x = _sx(x)
     return _CNT(*s.cs, s.arr("F:_name"), n, x, k)
 
 
@@ -126,6 +131,7 @@ _FCI = z3.Function("first_child_named_index", *_CS, smt.FieldArr, I, S, I)
 
 
 def FCH(s, n, x):
+    x = _sx(x)
     return _FCH(*s.cs, s.arr("F:_name"), n, x)
 
 
@@ -224,18 +230,22 @@ _RK = z3.Function("desc_rank", *_CS, smt.FieldArr, I, S, I, I)
 
 
 def DC(s, n, x):
+    x = _sx(x)
     return _DC(*s.cs, s.arr("F:_name"), n, x)
 
 
 def DCU(s, n, x, k):
+    x = _sx(x)
     return _DCU(*s.cs, s.arr("F:_name"), n, x, k)
 
 
 def RK(s, n, x, m):
+    x = _sx(x)
     return _RK(*s.cs, s.arr("F:_name"), n, x, m)
 
 
 def hit(s, n, x):
+    x = _sx(x)
     return z3.If(s.name(n) == x, 1, 0)
 
 
@@ -292,9 +302,14 @@ def install_find_all_descendants(w):
         j = z3.Int("pk_j")
         return smt.FA([j], z3.Implies(z3.And(0 <= j, j < s0.len(lst)), s.at(lst, j) == s0.at(lst, j)), patterns=[s.at(lst, j)])
 
+    def appended_nodes(s0, s, lst):
+        j = z3.Int("an_j")
+        e = s.at(lst, j)
+        return smt.FA([j], z3.Implies(z3.And(s0.len(lst) <= j, j < s.len(lst)), z3.And(Val.is_ref(e), s0.is_node(Val.r(e)))), patterns=[s.at(lst, j)])
+
     def ensures(s0, s, self, child_name, descendants, result=None):
         total = DC(s0, self, child_name)
-        return {"top:appends-as-many-as-there-are-matching-descendants": z3.And(total >= 0, s.len(descendants) == s0.len(descendants) + total),
+        return {"appended-are-nodes": appended_nodes(s0, s, descendants),"top:appends-as-many-as-there-are-matching-descendants": z3.And(total >= 0, s.len(descendants) == s0.len(descendants) + total),
                 "top:earlier-entries-kept": prefix_kept(s0, s, descendants),
                 "top:each-matching-descendant-at-its-document-order-rank": placed(s0, s, self, child_name, descendants, s0.len(descendants),
                                                                                    None, total),
@@ -304,6 +319,7 @@ def install_find_all_descendants(w):
         n, x, d = v.self, v.child_name, v.descendants
         sofar = DCU(s0, n, x, v._k)
         return {"bound": v._k <= s0.nkids(n), "count": z3.And(sofar >= 0, s.len(d) == s0.len(d) + sofar), "earlier-entries-kept": prefix_kept(s0, s, d),
+                "appended-are-nodes": appended_nodes(s0, s, d),
                 "placed": placed(s0, s, n, x, d, s0.len(d), v._k, sofar), "no-new-nodes": no_new_nodes(s0, s), "top": s.top >= s0.top}
 
     def loop_axioms(s0, s, v):
